@@ -48,6 +48,31 @@ func entriesForMessageSet(basePos int64, ms []byte) []*entry {
 	return entries
 }
 
+// ValidMessageSet indicates if the data is a well-formed sequence of message
+// set entries: every entry has a complete header followed by a message of
+// exactly the advertised size whose CRC matches. AppendMessageSet requires
+// this of its input.
+func ValidMessageSet(ms []byte) bool {
+	if len(ms) <= msgSetHeaderLen {
+		return false
+	}
+	for len(ms) > 0 {
+		if len(ms) < msgSetHeaderLen {
+			return false
+		}
+		size := int64(messageSet(ms).Size())
+		if size < 4 || int64(len(ms)) < msgSetHeaderLen+size {
+			return false
+		}
+		m := SerializedMessage(ms[msgSetHeaderLen : msgSetHeaderLen+size])
+		if crc32.Checksum(m[4:], crc32cTable) != m.Crc() {
+			return false
+		}
+		ms = ms[msgSetHeaderLen+size:]
+	}
+	return true
+}
+
 func newMessageSetFromProto(baseOffset, basePos int64, msgs []*Message, concurrencyControl bool) (
 	messageSet, []*entry, error) {
 
